@@ -211,12 +211,7 @@ class Source(tuple, metaclass=abc.ABCMeta):
         return tuple(self)
 
     def __eq__(self, other):
-        return (
-            isinstance(other, Source)
-            and other.__class__.__module__ == self.__class__.__module__
-            and other.__class__.__qualname__ == self.__class__.__qualname__
-            and super().__eq__(other)
-        )
+        return isinstance(other, Source) and series.identical(self, other)
 
     def __ne__(self, other):
         return not self == other
